@@ -313,6 +313,20 @@ class Arith:
             raise UndefinedUse("use of undefined value")
         return res
 
+    def dist_pc(self, g, pc, f):
+        """like dist, but f also receives the path condition strengthened by the alternative's guard"""
+        res, first = None, True
+        for c, v in reversed(g.alts):
+            if isinstance(v, Undefined):
+                continue
+            r = f(v, z3.And(pc, c))
+            res = r if first else self.ite(c, r, res)
+            first = False
+        if first:
+            from .interp import UndefinedUse
+            raise UndefinedUse("use of undefined value")
+        return res
+
     def sbytes(self, v):
         if isinstance(v, SBytes):
             return v
@@ -326,9 +340,9 @@ class Arith:
             from .interp import UndefinedUse
             raise UndefinedUse("operator on an undefined value")
         if isinstance(a, Guarded):
-            return self.dist(a, lambda v: self.binop(op, v, b, pc))
+            return self.dist_pc(a, pc, lambda v, p: self.binop(op, v, b, p))
         if isinstance(b, Guarded):
-            return self.dist(b, lambda v: self.binop(op, a, v, pc))
+            return self.dist_pc(b, pc, lambda v, p: self.binop(op, a, v, p))
         t = type(op)
         if isinstance(a, (SBytes, bytes, bytearray)) and isinstance(b, (SBytes, bytes, bytearray)):
             if t is ast.Add:
@@ -348,7 +362,11 @@ class Arith:
             if t in (ast.Div, ast.FloorDiv, ast.Mod) and b == 0:
                 self.raises.append((pc, ZeroDivisionError))
                 return 0
-            return _PYOPS[t](a, b)
+            try:
+                return _PYOPS[t](a, b)
+            except TypeError:
+                self.raises.append((pc, TypeError))
+                return UNDEF
         if isinstance(a, (Obj, EnumSym)) or isinstance(b, (Obj, EnumSym)):
             return self.obj_binop(op, a, b, pc)
         fa = isinstance(a, float) or self.is_float_term(a)
